@@ -769,7 +769,8 @@ class XsdElement(XsdComponent, ParticleMixin,
             else:
                 nilled = True
 
-        if xsd_type.is_empty() and obj.text and xsd_type.normalize(obj.text):
+        cdata = get_character_data(obj) if xsd_type.is_empty() else None
+        if cdata and xsd_type.normalize(cdata):
             reason = _("character data is not allowed because content is empty")
             context.validation_error(validation, self, reason, obj)
 
